@@ -372,8 +372,35 @@ func (f *File) Close() error {
 	mu.Unlock()
 	return f.f.Close()
 }
-func (f *File) ReadAt(b []byte, off int64) (int, error) { return f.f.ReadAt(b, off) }
+// readFault counts a read of a tracked file and injects the armed "read:k" fault (reads are not journaled and
+// are no kill points: they change nothing on disk).
+func readFault(name string) error {
+	mu.Lock()
+	defer mu.Unlock()
+	if !tracked(name) {
+		return nil
+	}
+	opCnt["read"]++
+	if failKind == "read" {
+		failCnt["read"]++
+		if failCnt["read"] == failAt {
+			Failed = true
+			return fmt.Errorf("%w (read #%d on %s)", ErrInjected, failAt, filepath.Base(name))
+		}
+	}
+	return nil
+}
+
+func (f *File) ReadAt(b []byte, off int64) (int, error) {
+	if err := readFault(f.name); err != nil {
+		return 0, err
+	}
+	return f.f.ReadAt(b, off)
+}
 func (f *File) Read(b []byte) (int, error) {
+	if err := readFault(f.name); err != nil {
+		return 0, err
+	}
 	n, err := f.f.Read(b)
 	mu.Lock()
 	f.pos += int64(n)
